@@ -103,7 +103,7 @@ func (a AV) String() string {
 	return "?"
 }
 
-func (a AV) IsSym() bool { return a.K == KSym }
+func (a AV) IsSym() bool  { return a.K == KSym }
 func (a AV) Eq(b AV) bool { return a.String() == b.String() }
 
 type Frame struct {
@@ -233,12 +233,12 @@ type BaseModel struct{}
 func (BaseModel) Call(*Machine, *State, ssa.CallInstruction, *ssa.Function, []AV) ([]Outcome, bool) {
 	return nil, false
 }
-func (BaseModel) Instr(*Machine, *State, ssa.Instruction, []AV)            {}
-func (BaseModel) LoadGlobal(*Machine, *State, *ssa.Global) ([]AV, bool)    { return nil, false }
-func (BaseModel) Return(*Machine, *State, *ssa.Return, []AV)               {}
+func (BaseModel) Instr(*Machine, *State, ssa.Instruction, []AV)               {}
+func (BaseModel) LoadGlobal(*Machine, *State, *ssa.Global) ([]AV, bool)       { return nil, false }
+func (BaseModel) Return(*Machine, *State, *ssa.Return, []AV)                  {}
 func (BaseModel) BackEdge(*Machine, *State, *ssa.BasicBlock, *ssa.BasicBlock) {}
-func (BaseModel) Branch(*Machine, *State, *ssa.If, AV, bool)               {}
-func (BaseModel) TypeTest(*Machine, *State, *ssa.TypeAssert, AV) *bool     { return nil }
+func (BaseModel) Branch(*Machine, *State, *ssa.If, AV, bool)                  {}
+func (BaseModel) TypeTest(*Machine, *State, *ssa.TypeAssert, AV) *bool        { return nil }
 
 type condInfo struct {
 	X      string // symbolic operand
@@ -255,7 +255,7 @@ type Machine struct {
 	Inline    func(callee *ssa.Function) bool
 	visited   map[string]int
 	OnVisit   func(st *State, b *ssa.BasicBlock) int // first visit of an abstract state at a block entry: returns a node id
-	OnRevisit func(st *State, node int)            // the state was seen before (at node)
+	OnRevisit func(st *State, node int)              // the state was seen before (at node)
 	States    int
 	Paths     int
 	Aborted   string
@@ -284,13 +284,13 @@ func site(in ssa.Instruction) string {
 	} else {
 		name = fmt.Sprintf("b%d", in.Block().Index)
 	}
-	return fn.Name() + ":" + name
+	return fnName(fn) + ":" + name
 }
 
 // Start explores fn from its entry with the given parameter values and initial facts.
 func (m *Machine) Start(fn *ssa.Function, params []AV, init func(st *State)) {
 	st := &State{Heap: map[string]AV{}, Facts: map[string]AV{}, Mon: map[string]string{}}
-	fr := &Frame{Fn: fn, Block: fn.Blocks[0], Vals: map[ssa.Value]AV{}, ID: fn.Name()}
+	fr := &Frame{Fn: fn, Block: fn.Blocks[0], Vals: map[ssa.Value]AV{}, ID: fnName(fn)}
 	for i, p := range fn.Params {
 		if i < len(params) {
 			fr.Vals[p] = params[i]
@@ -1039,7 +1039,9 @@ func (m *Machine) binop(st *State, x *ssa.BinOp, a, b AV) AV {
 		}
 	}
 	// fresh objects are never nil
-	isObj := func(v AV) bool { return v.K == KSym && strings.HasPrefix(v.S, "obj:") && !strings.ContainsAny(v.S[4:], ".[") }
+	isObj := func(v AV) bool {
+		return v.K == KSym && strings.HasPrefix(v.S, "obj:") && !strings.ContainsAny(v.S[4:], ".[")
+	}
 	if (isObj(a) && b.K == KNil) || (a.K == KNil && isObj(b)) {
 		switch op {
 		case token.EQL:
@@ -1240,7 +1242,7 @@ func (m *Machine) doCall(st *State, fr *Frame, call ssa.CallInstruction) bool {
 	}
 	// default: inline module functions
 	if callee != nil && callee.Blocks != nil && m.P.InModule(callee) && len(st.Frames) < m.MaxDepth && m.Inline(callee) && !m.onStack(st, callee) {
-		nf := &Frame{Fn: callee, Vals: map[ssa.Value]AV{}, Call: call, ID: fr.ID + ">" + callee.Name()}
+		nf := &Frame{Fn: callee, Vals: map[ssa.Value]AV{}, Call: call, ID: fr.ID + ">" + fnName(callee)}
 		for i, p := range callee.Params {
 			if i < len(args) {
 				nf.Vals[p] = args[i]
